@@ -294,6 +294,8 @@ pub struct Sim<'a> {
 }
 
 pub struct OpOutcome {
+    /// injected insert_order failures during the op
+    pub failed: usize,
     pub arrivals: Vec<Order>,
     pub tick_trades: Vec<Trade>,
     pub ticked: bool,
@@ -336,7 +338,7 @@ impl<'a> Sim<'a> {
     /// Read the wire entries produced since the last call: book trades, merge quotes, collect the
     /// orders that reached the server.
     pub fn absorb_wire(&mut self) -> OpOutcome {
-        let mut out = OpOutcome { arrivals: vec![], tick_trades: vec![], ticked: false, last_has_next: None };
+        let mut out = OpOutcome { failed: 0, arrivals: vec![], tick_trades: vec![], ticked: false, last_has_next: None };
         let wire = self.sh.wire.borrow();
         let mut pending_tick: Option<Vec<Trade>> = None;
         for w in wire[self.wire_seen..].iter() {
@@ -361,6 +363,10 @@ impl<'a> Sim<'a> {
                     }
                 }
                 Wire::Insert { order, .. } => out.arrivals.push(order.clone()),
+                Wire::Failed { .. } => {
+                    out.failed += 1;
+                    self.ctx.bump("f10_insert_order_request_lost");
+                }
                 _ => {}
             }
         }
@@ -849,7 +855,13 @@ impl<'a> Sim<'a> {
             "ready={cond_ready} nonzero={cond_nonzero} affordable={cond_cash} (cash {:?} vs {:?} x ask {:?}) holdings-ok={cond_hold} (held {:?})",
             o0.cash, shares, ask, held
         );
-        rule!(self.ctx, "C06", "valid-order-refused", sig, !(should && !sent), "order {:?} meets every condition but was answered {:?}: {why}", spec, e);
+        if out.failed > 0 {
+            // the transport lost the request: the order cannot have been forwarded; it must not be
+            // reported as sent and must be inert like any refusal (narrow relaxation of "always forwarded")
+            rule!(self.ctx, "C06", "lost-request-reported-sent", sig, !sent, "the client returned an error for insert_order but send_order answered {:?}", e);
+        } else {
+            rule!(self.ctx, "C06", "valid-order-refused", sig, !(should && !sent), "order {:?} meets every condition but was answered {:?}: {why}", spec, e);
+        }
         rule!(self.ctx, "C06", "invalid-order-forwarded", sig, !(sent && !should), "order {:?} was forwarded although it must be refused: {why}", spec);
         if !cond_ready {
             rule!(self.ctx, "C09", "failed-accepts", "send_order", !sent, "order accepted in Failed state");
@@ -937,7 +949,9 @@ impl<'a> Sim<'a> {
             let is_sent = matches!(e, BrokerEvent::OrderSentToExchange(_));
             let should = self.should_forward(spec, o0).unwrap_or(false);
             let sig = spec.typ.name();
-            rule!(self.ctx, "C06", "valid-order-refused", sig, !(should && !is_sent), "send_orders: order {:?} meets every condition but was answered {:?}", spec, e);
+            if out.failed == 0 {
+                rule!(self.ctx, "C06", "valid-order-refused", sig, !(should && !is_sent), "send_orders: order {:?} meets every condition but was answered {:?}", spec, e);
+            }
             rule!(self.ctx, "C06", "invalid-order-forwarded", sig, !(is_sent && !should), "send_orders: order {:?} was forwarded although it must be refused (cash {:?}, held {:?}, failed {})", spec, o0.cash, o0.holdings.get(&spec.symbol), o0.failed);
             if is_sent {
                 sent.push(order);
@@ -1031,7 +1045,7 @@ impl<'a> Sim<'a> {
         let success = matches!(e, BrokerCashEvent::WithdrawSuccess(_));
         let above_cash = amt > o0.cash.max(0.0);
         let whole_long = o0.holdings.values().all(|v| *v > 0.0 && is_whole(*v));
-        let in_domain = above_cash && !o0.failed && whole_long;
+        let in_domain = above_cash && !o0.failed && whole_long && out.failed == 0;
         // C04: a liquidation request above the available cash never moves cash
         if above_cash {
             rule!(
@@ -1103,14 +1117,14 @@ impl<'a> Sim<'a> {
                     if !o1.failed {
                         self.ctx.bump("probe_negative_cash_recoverable");
                         rule!(
-                            self.ctx, "C09", "ready-with-sells-queued", "check", out.arrivals.iter().any(|q| q.order_type == OrderType::MarketSell),
+                            self.ctx, "C09", "ready-with-sells-queued", "check", out.failed > 0 || out.arrivals.iter().any(|q| q.order_type == OrderType::MarketSell),
                             "after check: cash {:?} < 0 and broker Ready but no sell order was queued ({} arrivals)", o1.cash, out.arrivals.len()
                         );
                     }
                 }
             }
             // C10: the automatic liquidation request
-            if shortfall && !near {
+            if shortfall && !near && out.failed == 0 {
                 let whole = o1.holdings.values().all(|v| *v > 0.0 && is_whole(*v));
                 let queued: Vec<Order> = s1.buffer.clone();
                 self.liquidation_rules("automatic rebalancing", need, !o1.failed, &queued, &o1, whole);
@@ -1303,6 +1317,8 @@ pub struct GenCfg {
     pub typ_w: [u32; 6],
     pub eager_only: bool,
     pub delay_p: f64,
+    /// fault injection: share of mode slots that make an insert_order request fail
+    pub fail_p: f64,
 }
 
 pub fn gen_costs(rng: &mut Rng) -> Vec<CostSpec> {
@@ -1320,13 +1336,20 @@ pub fn gen_costs(rng: &mut Rng) -> Vec<CostSpec> {
 }
 
 pub fn gen_modes(rng: &mut Rng, eager_only: bool, delay_p: f64) -> Vec<Delivery> {
+    gen_modes_f(rng, eager_only, delay_p, 0.0)
+}
+
+/// `fail_p`: probability that a slot of the mode list is the insert_order fault.
+pub fn gen_modes_f(rng: &mut Rng, eager_only: bool, delay_p: f64, fail_p: f64) -> Vec<Delivery> {
     if eager_only {
         return vec![Delivery::Eager];
     }
     let n = rng.range(1, 4) as usize;
     (0..n)
         .map(|_| {
-            if rng.chance(delay_p) {
+            if rng.chance(fail_p) {
+                Delivery::InsertFails
+            } else if rng.chance(delay_p) {
                 if rng.one_in(2) {
                     Delivery::LazyPending(rng.range(1, 3) as u8)
                 } else {
@@ -1401,6 +1424,7 @@ impl Gen {
             typ_w,
             eager_only: c.one_in(4),
             delay_p: *c.pick(&[0.0, 0.2, 0.5]),
+            fail_p: *c.pick(&[0.0, 0.0, 0.0, 0.05, 0.2]),
         };
         Gen { rng: root.fork("ops"), cfg, issued: 0, next_tag: 1 }
     }
@@ -1506,7 +1530,7 @@ impl Gen {
                 return None;
             }
         };
-        let modes = gen_modes(&mut self.rng, self.cfg.eager_only, self.cfg.delay_p);
+        let modes = gen_modes_f(&mut self.rng, self.cfg.eager_only, self.cfg.delay_p, self.cfg.fail_p);
         let op = if self.issued == 1 && !self.rng.one_in(8) {
             BOp::Deposit { amt: X(self.amount()) }
         } else {
